@@ -67,6 +67,9 @@ def render(n, pre='self.'):
         return f"{render(n[1], pre)}[{render(n[2], pre)}]"
     if k == 'slice':
         return f"{render(n[1], pre)}[{n[2]}:{n[3]}]"
+    if k == 'multi':
+        # multi-index x[7:4, 0]: the parts are concatenated, the first part forms the most significant bits
+        return f"{render(n[1], pre)}[{', '.join(str(p) if isinstance(p, int) else f'{p[0]}:{p[1]}' for p in n[2])}]"
     if k in ('msb', 'lsb'):
         return f"{render(n[1], pre)}.{k}({'' if n[2] is None else n[2]})"
     if k == 'ifexp':
@@ -140,6 +143,15 @@ def evaluate(n, env):
     if k == 'slice':
         a = evaluate(n[1], env)
         return SKIP if a is SKIP else mv.slice_(a, n[2], n[3])
+    if k == 'multi':
+        a = evaluate(n[1], env)
+        if a is SKIP:
+            return SKIP
+        acc = None
+        for p in n[2]:
+            part = mv.slice_(a, p, p) if isinstance(p, int) else mv.slice_(a, p[0], p[1])
+            acc = part if acc is None else mv.binop('@', acc, part)
+        return acc
     if k == 'msb':
         a = evaluate(n[1], env)
         return SKIP if a is SKIP else mv.msb(a, n[2])
@@ -239,7 +251,7 @@ def depth(n):
     return 0
 
 
-KINDS = {'in', 'int', 'lit', 'pyb', 'bin', 'cmp', 'un', 'view', 'resize', 'idx', 'idxrt', 'slice', 'msb', 'lsb', 'ifexp',
+KINDS = {'in', 'int', 'lit', 'pyb', 'bin', 'cmp', 'un', 'view', 'resize', 'idx', 'idxrt', 'slice', 'multi', 'msb', 'lsb', 'ifexp',
          'boolop', 'chain', 'selw', 'any', 'all'}
 
 
